@@ -91,6 +91,7 @@ def run(db, rep, tier):
     r1(db, rep, rows, g)
     r2(db, rep)
     r3(db, rep)
+    r3_flag_rejections(db, rep)
     r4(db, rep)
     r5(db, rep)
     r6(db, rep)
@@ -387,6 +388,34 @@ def r3(db, rep):
             rep.ok("R3-derived", key, facts.loc(f, call), "tests FLAGS & FCS")
         else:
             rep.violation("R3-derived", key, facts.loc(f, call), "the FCS trailer is not decided by FLAGS & FCS")
+
+
+def r3_flag_rejections(db, rep):
+    """the parsing constructor may reject a header because of a FLAGS bit only when the bit's premise holds: a failed
+    frame check sequence is only meaningful when an FCS is present (every value of flags() can be set and must be readable)"""
+    from vlib import cond
+    cands = [f for f in db.fns_named("Tins::RadioTap::RadioTap") if any(n["k"] == "CXXMemberCallExpr" and n.get("cname") == "skip_to_field" for n in facts.fn_nodes(f))]
+    if not cands:
+        return
+    f = cands[0]
+    g = cfg.FnCFG(f)
+    for t in [n for n in facts.fn_nodes(f) if n["k"] == "CXXThrowExpr"]:
+        gf = cond.guards_facts(g, g.pos(t))
+        flagbits = set()
+        for op, l, r in gf:
+            for x in facts.walk(l):
+                if x["k"] == "DeclRefExpr" and (x.get("enumc") or "").startswith("Tins::RadioTap::") and \
+                        (facts.ty(f, x) or {}).get("name") == "Tins::RadioTap::FrameFlags":
+                    flagbits.add(x["enumc"].split("::")[-1])
+        if not flagbits:
+            continue
+        key = "constructor:reject(%s)" % "+".join(sorted(flagbits))
+        if "FAILED_FCS" in flagbits and "FCS" not in flagbits:
+            rep.violation("R3-derived", key, facts.loc(f, t),
+                          "the parsing constructor rejects every header whose FLAGS has FAILED_FCS set, even without an FCS: flags() values with "
+                          "bit 0x40 and without bit 0x10 can be set and serialised but the bytes cannot be parsed back")
+        else:
+            rep.ok("R3-derived", key, facts.loc(f, t), "rejection tests %s" % sorted(flagbits))
 
 
 def r4(db, rep):
